@@ -28,6 +28,7 @@ package processor
 
 import (
 	"context"
+	"encoding/binary"
 	"fmt"
 	"net/http"
 	"net/http/httptest"
@@ -131,7 +132,7 @@ func c33SegmentBytes(s c33Seg, split []bool, deltaAt int, deltaKind string) ([]b
 		delta int64
 		val   string
 	}
-	flush := func(base int64, recs []rec) error {
+	flush := func(base int64, recs []rec, mutated bool) error {
 		if len(recs) == 0 {
 			return nil
 		}
@@ -150,7 +151,27 @@ func c33SegmentBytes(s c33Seg, split []bool, deltaAt int, deltaKind string) ([]b
 		}
 		b := &vfkit.Batch{Magic: 2, LastOffsetDelta: int32(len(recs) - 1), FirstTimestamp: 1726000000000 + base, MaxTimestamp: 1726000000000 + base + int64(len(recs)),
 			ProducerID: -1, ProducerEpoch: -1, BaseSequence: -1, NumRecords: int32(len(recs)), RawRecords: raw}
-		rb, err := storage.NewRecordBatchFromBytes(b.Encode())
+		enc := b.Encode()
+		if mutated {
+			switch deltaKind {
+			case "bl:zero":
+				binary.BigEndian.PutUint32(enc[8:], 0)
+			case "bl:maxint32":
+				binary.BigEndian.PutUint32(enc[8:], 0x7fffffff)
+			case "bl:allones":
+				binary.BigEndian.PutUint32(enc[8:], 0xffffffff)
+			case "bl:plus7":
+				binary.BigEndian.PutUint32(enc[8:], uint32(len(enc)-12+7))
+			case "trail:2^60", "trail:ahead":
+				tb := int64(1) << 60
+				if deltaKind == "trail:ahead" {
+					tb = base + 1000
+				}
+				extra := vfkit.NewBatch(tb, 1726000000000, []vfkit.Record{{Key: []byte("k"), Value: []byte("not-a-produced-record")}})
+				enc = append(enc, extra.Encode()...)
+			}
+		}
+		rb, err := storage.NewRecordBatchFromBytes(enc)
 		if err != nil {
 			return err
 		}
@@ -162,22 +183,27 @@ func c33SegmentBytes(s c33Seg, split []bool, deltaAt int, deltaKind string) ([]b
 		return nil
 	}
 	var cur []rec
+	curMut := false
 	base := s.Base
 	for i := 0; i < s.N; i++ {
 		o := s.Base + int64(i)
 		if i > 0 && split[i] {
-			if err := flush(base, cur); err != nil {
+			if err := flush(base, cur, curMut); err != nil {
 				return nil, err
 			}
-			cur, base = nil, o
+			cur, base, curMut = nil, o, false
 		}
 		d := int64(len(cur))
 		if i == deltaAt {
-			d = c33HostileDelta(deltaKind, len(cur))
+			if c33MutFinding(deltaKind) == c33DeltaFinding {
+				d = c33HostileDelta(deltaKind, len(cur))
+			} else {
+				curMut = true
+			}
 		}
 		cur = append(cur, rec{delta: d, val: "v-" + strconv.FormatInt(o, 10)})
 	}
-	if err := flush(base, cur); err != nil {
+	if err := flush(base, cur, curMut); err != nil {
 		return nil, err
 	}
 	art, err := storage.BuildSegment(storage.SegmentWriterConfig{IndexIntervalMessages: 1}, rbs, time.UnixMilli(1726000000000))
@@ -219,7 +245,29 @@ func (s *c33ValueSink) Write(ctx context.Context, records []sink.Record) error {
 }
 func (s *c33ValueSink) Close(ctx context.Context) error { return nil }
 
-const c33DeltaFinding = "C33-record-offset-delta-trusted"
+const (
+	c33DeltaFinding    = "C33-record-offset-delta-trusted"
+	c33BatchLenFinding = "C33-batchlength-truncates-segment-silently"
+	c33TrailFinding    = "C33-trailing-batch-base-offset-trusted"
+)
+
+// Mutations of the client-written record set that holds the chosen record (all are accepted
+// and stored unchanged by the produce path, which reads only base offset, lastOffsetDelta and
+// record count from the first 61 bytes):
+//   bl:*    the batchLength field (bytes 8..12) says 0 / 0x7fffffff / 0xffffffff / 7 too many
+//   trail:* a second batch is appended to the record set, with a client-written base offset
+var c33BlobKinds = []string{"bl:zero", "bl:maxint32", "bl:allones", "bl:plus7", "trail:2^60", "trail:ahead"}
+
+func c33MutFinding(kind string) string {
+	switch {
+	case strings.HasPrefix(kind, "bl:"):
+		return c33BatchLenFinding
+	case strings.HasPrefix(kind, "trail:"):
+		return c33TrailFinding
+	default:
+		return c33DeltaFinding
+	}
+}
 
 // c33DeltaKinds: how the planted record's offsetDelta differs from its index in the batch.
 var c33DeltaKinds = []string{"far-ahead", "ahead", "negative", "duplicate", "far-ahead", "ahead-by-one"}
@@ -315,8 +363,10 @@ func TestVF_C33_S3Decode(t *testing.T) {
 		// a record whose own offsetDelta disagrees with its position in the batch
 		deltaSeg, deltaAt, deltaKind := -1, -1, ""
 		if rapid.IntRange(0, 2).Draw(rt, "plant-offset-delta") == 0 {
-			if vfkit.Known(c33DeltaFinding) {
-				p.Excluded[c33DeltaFinding] = true
+			deltaKind = rapid.SampledFrom(append(append([]string(nil), c33DeltaKinds...), c33BlobKinds...)).Draw(rt, "mutation-kind")
+			if id := c33MutFinding(deltaKind); vfkit.Known(id) {
+				p.Excluded[id] = true
+				deltaKind = ""
 			} else {
 				deltaSeg = rapid.IntRange(0, len(p.Segs)-1).Draw(rt, "delta-segment")
 				if p.Segs[deltaSeg].N > 8 {
@@ -324,8 +374,7 @@ func TestVF_C33_S3Decode(t *testing.T) {
 				} else {
 					deltaAt = rapid.IntRange(0, p.Segs[deltaSeg].N-1).Draw(rt, "delta-record")
 				}
-				deltaKind = rapid.SampledFrom(c33DeltaKinds).Draw(rt, "delta-kind")
-				st.Class("offset-delta:" + deltaKind)
+				st.Class("mutation:" + deltaKind)
 			}
 		}
 		caseNo++
@@ -368,6 +417,18 @@ func TestVF_C33_S3Decode(t *testing.T) {
 		ctx := context.Background()
 		for i, s := range p.Segs {
 			recs, err := real.Decode(ctx, s.Key, s.Key+".index", c33Topic, s.Part)
+			if i == deltaSeg && c33MutFinding(deltaKind) != c33DeltaFinding {
+				// a hostile record set: whatever the real decoder makes of it is replayed; a decoder
+				// that fails loudly blocks the partition at this segment instead of losing records
+				rd.clean[i] = c33Outcome{recs: recs, err: err}
+				if err != nil {
+					st.Class("hostile-record-set-rejected-loudly")
+					if cur, ok := p.LoudFrom[s.Part]; !ok || s.Base < cur {
+						p.LoudFrom[s.Part] = s.Base
+					}
+				}
+				continue
+			}
 			if err != nil {
 				fmt.Println("VF-INCONCLUSIVE: intact download through the in-process S3 endpoint failed:", err)
 				rt.Fatalf("harness: clean Decode(%s): %v", s.Key, err)
@@ -424,14 +485,13 @@ func TestVF_C33_S3Decode(t *testing.T) {
 	})
 }
 
-// TestVF_C33_S3DeltaWitness: segments [0..1] and [2..3]; record 1 of the first segment carries
-// offsetDelta 2^29 instead of 1 (batch header consistent). Both segments are listed from the
-// second cycle on; no failure is injected anywhere.
+// TestVF_C33_S3DeltaWitness: one minimal plan per finding of this leg. Segments [0..1] and
+// [2..3], both listed, no failure injected anywhere; the record set holding record 1 (resp. 0)
+// of the first segment carries the mutation.
 func TestVF_C33_S3DeltaWitness(t *testing.T) {
 	c33TestSetup(t)
 	st := vfkit.NewStats("C33", c33Mod+"-s3-witness")
 	defer st.Flush()
-	st.Eval()
 	c33AWSEnv()
 	s3 := c33NewS3Fake()
 	defer s3.srv.Close()
@@ -440,44 +500,59 @@ func TestVF_C33_S3DeltaWitness(t *testing.T) {
 		fmt.Println("VF-INCONCLUSIVE: decoder.New against the in-process S3 endpoint failed:", err)
 		t.Fatalf("decoder.New: %v", err)
 	}
-	p := c33NewPlan(c33Mod, "real")
-	p.Cycles = 1
-	p.Segs = []c33Seg{{Part: c33PartA, Base: 0, N: 2, Key: "witness/" + c33SegKey(c33PartA, 0)}, {Part: c33PartA, Base: 2, N: 2, Key: "witness/" + c33SegKey(c33PartA, 2)}}
-	p.NA, p.Visible = 2, []int{1}
-	rd := &c33ReplayDecoder{clean: map[int]c33Outcome{}, fault: map[[2]int]c33Outcome{}}
-	for i, sg := range p.Segs {
-		at, kind := -1, ""
-		if i == 0 {
-			at, kind = 1, "far-ahead"
+	for wi, wit := range []struct {
+		id, kind, what string
+		at         int
+	}{
+		{c33DeltaFinding, "far-ahead", "record 1 of the first segment carries offsetDelta 2^29 (batch header consistent)", 1},
+		{c33BatchLenFinding, "bl:zero", "the record set of the first segment has batchLength 0 in bytes 8..12", 0},
+		{c33BatchLenFinding, "bl:maxint32", "the record set of the first segment has batchLength 0x7fffffff", 0},
+		{c33TrailFinding, "trail:2^60", "the record set of the first segment is followed by a second batch with base offset 2^60", 0},
+	} {
+		st.Eval()
+		p := c33NewPlan(c33Mod, "real")
+		p.Cycles = 1
+		pre := fmt.Sprintf("witness-%d/", wi)
+		p.Segs = []c33Seg{{Part: c33PartA, Base: 0, N: 2, Key: pre + c33SegKey(c33PartA, 0)}, {Part: c33PartA, Base: 2, N: 2, Key: pre + c33SegKey(c33PartA, 2)}}
+		p.NA, p.Visible = 2, []int{2}
+		rd := &c33ReplayDecoder{clean: map[int]c33Outcome{}, fault: map[[2]int]c33Outcome{}}
+		for i, sg := range p.Segs {
+			at, kind := -1, ""
+			if i == 0 {
+				at, kind = wit.at, wit.kind
+			}
+			b, err := c33SegmentBytes(sg, make([]bool, sg.N), at, kind)
+			if err != nil {
+				t.Fatalf("harness: %v", err)
+			}
+			s3.mu.Lock()
+			s3.objs[sg.Key] = b
+			s3.mu.Unlock()
+			recs, err := real.Decode(context.Background(), sg.Key, sg.Key+".index", c33Topic, sg.Part)
+			rd.clean[i] = c33Outcome{recs: recs, err: err}
+			if err != nil && i == 0 {
+				p.LoudFrom[sg.Part] = sg.Base
+			}
 		}
-		b, err := c33SegmentBytes(sg, make([]bool, sg.N), at, kind)
-		if err != nil {
-			t.Fatalf("harness: %v", err)
+		w := c33NewWorld(&p)
+		rd.w = w
+		proc := c33NewProcessor(&c33Lister{w: w}, rd, &c33Store{w: w}, &c33ValueSink{w: w})
+		if err := c33RunBubble(t, &p, w, proc.Run); err != nil {
+			t.Fatalf("witness: Run returned %v", err)
 		}
-		s3.mu.Lock()
-		s3.objs[sg.Key] = b
-		s3.mu.Unlock()
-		recs, err := real.Decode(context.Background(), sg.Key, sg.Key+".index", c33Topic, sg.Part)
-		rd.clean[i] = c33Outcome{recs: recs, err: err}
-	}
-	w := c33NewWorld(&p)
-	rd.w = w
-	proc := c33NewProcessor(&c33Lister{w: w}, rd, &c33Store{w: w}, &c33ValueSink{w: w})
-	if err := c33RunBubble(t, &p, w, proc.Run); err != nil {
-		t.Fatalf("witness: Run returned %v", err)
-	}
-	v := w.finish()
-	for _, m := range v {
-		if strings.HasPrefix(m, "harness:") {
-			fmt.Println("VF-INCONCLUSIVE: " + m)
-			t.Fatalf("%s", m)
+		v := w.finish()
+		for _, m := range v {
+			if strings.HasPrefix(m, "harness:") {
+				fmt.Println("VF-INCONCLUSIVE: " + m)
+				t.Fatalf("%s", m)
+			}
 		}
-	}
-	t.Logf("witness -> %v (trace %s)", v, strings.Join(w.trace, " "))
-	what := "segments [0..1],[2..3]; record 1 of the first carries offsetDelta 2^29 (batch header consistent), no failures"
-	if len(v) > 0 {
-		st.KnownResult(c33DeltaFinding, true, what+": "+v[0])
-	} else {
-		st.KnownResult(c33DeltaFinding, false, what+": no violation")
+		t.Logf("%s [%s] -> %v (trace %s)", wit.id, wit.kind, v, strings.Join(w.trace, " "))
+		what := "segments [0..1],[2..3], no failures; " + wit.what
+		if len(v) > 0 {
+			st.KnownResult(wit.id, true, what+": "+v[0])
+		} else if _, failing := st.Known[wit.id]; !failing {
+			st.KnownResult(wit.id, false, what+": no violation")
+		}
 	}
 }
